@@ -75,7 +75,8 @@ def twins_oracle(rng):
     import artlib
     from sklearn.base import clone
     fails = []
-    kind = rng.choice(["Fuzzy", "Hyper", "ART2A", "SimpleARTMAP", "DualVig", "Topo", "Fusion", "DeepARTMAP", "SMART", "CVIART", "iCVIFuzzy", "ARTMAP", "BARTMAP"])
+    kind = rng.choice(["Fuzzy", "Hyper", "ART2A", "SimpleARTMAP", "DualVig", "Topo", "Fusion", "DeepARTMAP", "SMART", "CVIART", "iCVIFuzzy", "ARTMAP", "BARTMAP",
+                      "SAM_Fusion", "SAM_DV"])
     rho1, rho2 = 0.25, 0.75
     fz = lambda r: artlib.FuzzyART(r, 1e-3, 1.0)
     with contextlib.redirect_stdout(io.StringIO()):
@@ -86,11 +87,14 @@ def twins_oracle(rng):
               "Fusion": lambda r: artlib.FusionART([fz(r), fz(0.5)], [0.5, 0.5], [2, 2]),
               "DeepARTMAP": lambda r: artlib.DeepARTMAP([fz(r), fz(0.9)]), "SMART": lambda r: artlib.SMART(artlib.FuzzyART, [r, 0.9], {"alpha": 1e-3, "beta": 1.0}),
               "CVIART": lambda r: artlib.CVIART(fz(r), 1), "iCVIFuzzy": lambda r: iCVIFuzzyART(r, 1e-3, 1.0, 1),
-              "BARTMAP": lambda r: artlib.BARTMAP(fz(r), fz(0.5), eta=0.0)}[kind]
+              "BARTMAP": lambda r: artlib.BARTMAP(fz(r), fz(0.5), eta=0.0),
+              # names nested two levels deep (module_a__module_0__rho, module_a__base_module__rho)
+              "SAM_Fusion": lambda r: artlib.SimpleARTMAP(artlib.FusionART([fz(r), fz(0.5)], [0.5, 0.5], [2, 2])),
+              "SAM_DV": lambda r: artlib.SimpleARTMAP(artlib.DualVigilanceART(fz(r), 0.125))}[kind]
         a, b = mk(rho1), mk(rho2)
     key = {"Fuzzy": "rho", "Hyper": "rho", "ART2A": "rho", "SimpleARTMAP": "module_a__rho", "ARTMAP": "module_a__rho", "DualVig": "base_module__rho",
            "Topo": "rho", "Fusion": "module_0__rho", "DeepARTMAP": "module_0__rho", "SMART": "module_0__rho", "CVIART": "rho", "iCVIFuzzy": "rho",
-           "BARTMAP": "module_a__rho"}[kind]
+           "BARTMAP": "module_a__rho", "SAM_Fusion": "module_a__module_0__rho", "SAM_DV": "module_a__base_module__rho"}[kind]
     n = 8
     X = zoo.cc_rows(rng, n, 1)
     y = np.array([rng.randrange(2) for _ in range(n)])
@@ -99,8 +103,10 @@ def twins_oracle(rng):
 
     def train(e):
         with contextlib.redirect_stdout(io.StringIO()), np.errstate(all="ignore"):
-            if kind in ("SimpleARTMAP",):
+            if kind in ("SimpleARTMAP", "SAM_DV"):
                 return e.fit(X, y)
+            if kind == "SAM_Fusion":
+                return e.fit(np.hstack([X, X]), y)
             if kind == "ARTMAP":
                 return e.fit(X, X)
             if kind == "Fusion":
@@ -116,7 +122,7 @@ def twins_oracle(rng):
             return [int(v) for v in e.row_labels_] + [int(v) for v in e.column_labels_]
         if kind == "DeepARTMAP" or kind == "SMART":
             return np.asarray(e.labels_deep_).tolist()
-        if kind in ("SimpleARTMAP", "ARTMAP"):
+        if kind in ("SimpleARTMAP", "ARTMAP", "SAM_Fusion", "SAM_DV"):
             return [int(v) for v in e.labels_a]
         return [int(v) for v in e.labels_]
     # get_params exposes the key; set_params(get_params) is a no-op
